@@ -31,12 +31,17 @@ theorem label_slice (off n : Nat) : label_idx off = off + 1 ∧ label_end (label
 theorem header_len : dnsCompressionHeaderLen = 1 := rfl
 theorem pointer_len : dnsCompressionPointerLen = 2 := rfl
 
-theorem is_end_iff (n : Nat) : is_end n = true ↔ n = 0 := by simp [is_end]
-theorem is_label_iff (n : Nat) : is_label n = true ↔ n < 64 := by simp [is_label]
-theorem is_unknown_iff (n : Nat) : is_unknown n = true ↔ n < 192 := by simp [is_unknown]
+/-! byte classification, only in the directions the agreement proof uses: a strict label byte
+(1..63) is read as a label, a strict pointer byte (192..255) as a pointer, zero as the terminator -/
+theorem is_end_zero : is_end 0 = true := by decide
+theorem not_end_of_pos {n : Nat} (h : 0 < n) : is_end n = false := by simp [is_end]; omega
+theorem is_label_of_lt {n : Nat} (h : n < 64) : is_label n = true := by simp [is_label]; omega
+theorem not_label_of_ptr {n : Nat} (h : 192 ≤ n) : is_label n = false := by simp [is_label]; omega
+theorem not_unknown_of_ptr {n : Nat} (h : 192 ≤ n) : is_unknown n = false := by simp [is_unknown]; omega
 
-theorem link_beyond_iff (l len : Nat) : link_beyond l len = true ↔ len < l := by simp [link_beyond]
-theorem link_self_iff (l off : Nat) : link_self l off = true ↔ l = off := by simp [link_self]
+/-- a pointer that strictly points backwards inside the packet passes the two position tests -/
+theorem link_in_packet {l len : Nat} (h : l < len) : link_beyond l len = false := by simp [link_beyond]; omega
+theorem link_not_self {l off : Nat} (h : l < off) : link_self l off = false := by simp [link_self]; omega
 
 theorem name_short {n : Nat} (h : name_too_long n = false) : n ≤ 253 := by
   simp [name_too_long] at h; omega
